@@ -322,7 +322,8 @@ pub fn fault_enumerate(sc: &Scenario, reference: &FaultRun, budget: usize, seed:
     let mut evals = 0u64;
     let mut fired = (0u64, 0u64, 0u64, 0u64);
     // every index once; writes in both flavours; when the history is long, a seeded subset of indices
-    let mut plan: Vec<(u64, bool, bool)> = Vec::new(); // (index, applied, dead-window)
+    // (index, applied, dead-window); applied && dead-window together mean "calls i and i+2 both fail" (two separate faults)
+    let mut plan: Vec<(u64, bool, bool)> = Vec::new();
     for i in 0..n {
         let is_write = reference.call_kinds.get(i as usize).copied().unwrap_or(false);
         plan.push((i, false, false));
@@ -331,6 +332,9 @@ pub fn fault_enumerate(sc: &Scenario, reference: &FaultRun, budget: usize, seed:
         }
         if i % 5 == 2 {
             plan.push((i, false, true));
+        }
+        if i % 7 == 3 {
+            plan.push((i, true, true));
         }
     }
     if plan.len() > budget {
@@ -348,7 +352,9 @@ pub fn fault_enumerate(sc: &Scenario, reference: &FaultRun, budget: usize, seed:
     }
     for (i, applied, dead) in plan {
         let mut c = sc.clone();
-        if dead {
+        if dead && applied {
+            c.faults = vec![Fault { at: i, applied: false }, Fault { at: i + 2, applied: true }];
+        } else if dead {
             c.dead_from = Some(i);
         } else {
             c.faults = vec![Fault { at: i, applied }];
@@ -364,7 +370,7 @@ pub fn fault_enumerate(sc: &Scenario, reference: &FaultRun, budget: usize, seed:
             out.probes.hit("fault_point_not_reached");
         }
         for mut v in r.viols.into_iter().filter(|v| v.prop == "C11") {
-            v.detail = format!("{} [fault at device call {}{}{}]", v.detail, i, if applied { ", write applied" } else { "" }, if dead { ", device dead until the call returns" } else { "" });
+            v.detail = format!("{} [fault at device call {}{}{}]", v.detail, i, if applied && !dead { ", write applied" } else { "" }, if dead && applied { " and at the call after next" } else if dead { ", device dead until the call returns" } else { "" });
             if out.viols.len() < 8 {
                 // the failing fault plan travels with the case
                 if out.viols.is_empty() {
